@@ -8,6 +8,7 @@ import (
 	"crypto/tls"
 	"encoding/json"
 	"encoding/xml"
+	"errors"
 	"fmt"
 	"math/rand"
 	"net"
@@ -22,7 +23,7 @@ import (
 )
 
 type c13Round struct {
-	Term     string `json:"term"`                // drop close serr (<stream:error><system-shutdown/></stream:error></stream:stream>)
+	Term     string `json:"term"`                // drop close serr (<stream:error><system-shutdown/></stream:error></stream:stream>) serrconflict (the same with <conflict/>)
 	RefuseMs int    `json:"refuse_ms,omitempty"` // nothing listens for this long after the loss
 	// negotiation failures before the good attempt: transient (unexpected reply to <auth/>, stream closed cleanly),
 	// transientdrop (the same, connection cut), cutfeatures (connection cut after the server's stream header, before
@@ -30,18 +31,25 @@ type c13Round struct {
 	// and, TLS only, the handshake that follows <proceed/> is REFUSED (a TLS policy failure, permanent): by the server
 	// with an alert -- tlsversion (the server accepts TLS 1.3 only, the application pins TLS 1.2), tlsclientcert (the
 	// server demands a client certificate) -- or by the client -- tlswronghost tlsuntrusted tlsexpired (certificate
-	// for another name / from an unknown authority / out of date)
+	// for another name / from an unknown authority / out of date);
+	// hookfail: the negotiation succeeds and the application's PostResumeHook reports an error (Resume closes the
+	// session and reports a failed attempt, which is retried)
 	Fails  []string `json:"fails,omitempty"`
 	Resume bool     `json:"resume,omitempty"` // the good attempt resumes the stream-managed session
 }
 type c13In struct {
 	SM     bool       `json:"sm,omitempty"`
-	First  string     `json:"first,omitempty"`   // "" ok; transient permanent refused: the very first connection fails
+	First  string     `json:"first,omitempty"`   // "" ok; transient permanent refused: the very first connection fails; stopduring: Stop is called while the first negotiation is going on (which then fails)
 	StopIn int        `json:"stop_in,omitempty"` // k > 0: Stop is called from inside the k-th PostConnect callback (the one-shot connect / send / stop pattern)
 	Rounds []c13Round `json:"rounds"`
 	KaMs   int        `json:"ka_ms,omitempty"` // keepalive interval in ms (0: the default, 30 s): a short one makes the keepalive of a lost connection tick during the outage
 	TLS    bool       `json:"tls,omitempty"`   // TLS is mandatory (Insecure=false): every connection goes through STARTTLS
 	WS     bool       `json:"ws,omitempty"`    // WebSocket transport (ws://) against an RFC 7395 server: terms drop / serr, refusal windows, transient / permanent failures
+	// StopOut k > 0: Stop is called during the outage of round k (which has a refusal window), i.e. while the retry
+	// loop is running; then the server accepts connections again -- and must not see any
+	StopOut int `json:"stop_out,omitempty"`
+	// Probe "hdrwrite": no fault sequence; how the transport classifies a stream header it cannot write
+	Probe string `json:"probe,omitempty"`
 }
 
 // c13DropsSession: failures after which NewSession returns no Session object at all (the early failures: first
@@ -96,6 +104,18 @@ func c13Pins12(in c13In) bool {
 	return false
 }
 
+// c13RefusalLogged: the server's account of a failed handshake is the refusal the fault sequence scripted
+func c13RefusalLogged(kind, serverErr string) bool {
+	switch kind {
+	case "tlsversion":
+		return strings.Contains(serverErr, "unsupported versions") || strings.Contains(serverErr, "protocol version")
+	case "tlsclientcert":
+		return strings.Contains(serverErr, "didn't provide a certificate")
+	default: // the client refuses the server's certificate and says so with an alert
+		return strings.HasPrefix(serverErr, "remote error: tls:") && (strings.Contains(serverErr, "certificate") || strings.Contains(serverErr, "authority"))
+	}
+}
+
 var c13Refusals = []string{"tlsversion", "tlsclientcert", "tlswronghost", "tlsuntrusted", "tlsexpired"}
 
 func c13IsCut(f string) bool { return f == "transientdrop" || f == "cutfeatures" || f == "cutproceed" }
@@ -109,7 +129,7 @@ func (c13) RunFn() string { return "run_C13" }
 func (c13) Workers() int  { return 32 }
 func (c13) Journal() bool { return true }
 func (c13) Rule() string {
-	return "fault sequences of up to 4 rounds on successive connections of a real StreamManager+Client: abrupt drop, graceful </stream:stream> or <stream:error><system-shutdown/></stream:error></stream:stream> by the server, listener down for 0-120 ms (refused attempts), keepalive interval the default or 3-10 ms (shorter than the outage), 0-2 negotiation failures (transient: unexpected reply to <auth/>, with a clean stream close or with the connection cut, or the connection cut after the server's stream header / after the client's <starttls/>; permanent: SASL <failure/>, or - TLS mandatory - the handshake after <proceed/> refused by the server with an alert (TLS 1.3 only against an application pinning TLS 1.2; client certificate demanded) or by the client (certificate for another name, from an unknown authority, expired)), then a successful attempt that resumes (stream management) or binds afresh; a probe stanza is sent on every established session; finally Stop; also first-connection failures; cleartext or mandatory STARTTLS; TCP or WebSocket transport; distinct = fault sequence; non-trivial = at least one loss followed by a new session"
+	return "fault sequences of up to 4 rounds on successive connections of a real StreamManager+Client: abrupt drop, graceful </stream:stream> or <stream:error><system-shutdown/></stream:error></stream:stream> by the server, listener down for 0-120 ms (refused attempts), keepalive interval the default or 3-10 ms (shorter than the outage), 0-2 negotiation failures (transient: unexpected reply to <auth/>, with a clean stream close or with the connection cut, or the connection cut after the server's stream header / after the client's <starttls/>; permanent: SASL <failure/>, or - TLS mandatory - the handshake after <proceed/> refused by the server with an alert (TLS 1.3 only against an application pinning TLS 1.2; client certificate demanded) or by the client (certificate for another name, from an unknown authority, expired)), or a PostResumeHook of the application that fails after a successful negotiation, then a successful attempt on which the server grants or refuses a resumption (stream management) or that binds afresh; on every established session a stanza from the server must reach a handler and a stanza sent afterwards must arrive on that session's connection; the stream error also with <conflict/>; finally Stop, or Stop in the middle of an outage (then the server accepts again and must see nobody), or Stop during the first negotiation; also first-connection failures; cleartext or mandatory STARTTLS; TCP or WebSocket transport; distinct = fault sequence; non-trivial = at least one loss followed by a new session"
 }
 func (c13) Decode(raw json.RawMessage) (interface{}, error) {
 	var in c13In
@@ -153,6 +173,21 @@ func (c13) Gen(r *rand.Rand, tier string) []interface{} {
 		c13In{TLS: true, SM: true, Rounds: []c13Round{{Term: "drop", Resume: true}, {Term: "serr", Fails: []string{"transient", "tlsuntrusted"}}}},
 		c13In{TLS: true, Rounds: []c13Round{{Term: "drop", RefuseMs: 60, Fails: []string{"cutproceed", "tlswronghost"}}}},
 		c13In{TLS: true, KaMs: 5, Rounds: []c13Round{{Term: "drop", Fails: []string{"tlsexpired"}}}},
+		// Stop while the manager is reconnecting (listener down, retry loop in its back-off); then the server is back
+		c13In{Rounds: []c13Round{{Term: "drop", RefuseMs: 80}}, StopOut: 1},
+		c13In{SM: true, Rounds: []c13Round{{Term: "close", Resume: true}, {Term: "serr", RefuseMs: 100, Resume: true}}, StopOut: 2},
+		c13In{KaMs: 5, Rounds: []c13Round{{Term: "close", RefuseMs: 60}}, StopOut: 1},
+		// Stop while the first connection is being negotiated
+		c13In{First: "stopduring"},
+		// the server ends the session with <conflict/>: the manager does not reconnect from the stream error handler,
+		// the receiver closes its connection and reports the loss: one new session all the same
+		c13In{Rounds: []c13Round{{Term: "serrconflict"}}},
+		c13In{SM: true, Rounds: []c13Round{{Term: "serrconflict", Resume: true}, {Term: "drop", Fails: []string{"transient"}}}},
+		// the application's PostResumeHook fails after a successful negotiation
+		c13In{Rounds: []c13Round{{Term: "drop", Fails: []string{"hookfail"}}}},
+		c13In{Rounds: []c13Round{{Term: "serr", Fails: []string{"transient", "hookfail"}}, {Term: "close", Fails: []string{"hookfail", "hookfail"}}}},
+		// a stream header that cannot be written
+		c13In{Probe: "hdrwrite"},
 		// WebSocket transport
 		c13In{WS: true, KaMs: 20, Rounds: []c13Round{{Term: "drop"}}},
 		c13In{WS: true, KaMs: 20, Rounds: []c13Round{{Term: "drop", RefuseMs: 80}}},
@@ -179,6 +214,9 @@ func (c13) Gen(r *rand.Rand, tier string) []interface{} {
 			if in.WS && rd.Term == "close" {
 				rd.Term = "drop"
 			}
+			if !in.WS && r.Intn(12) == 0 {
+				rd.Term = "serrconflict"
+			}
 			if r.Intn(3) == 0 {
 				rd.RefuseMs = 20 + r.Intn(100)
 			}
@@ -200,13 +238,23 @@ func (c13) Gen(r *rand.Rand, tier string) []interface{} {
 					rd.Fails = append(rd.Fails, "cutfeatures")
 				case x == 2 && in.TLS:
 					rd.Fails = append(rd.Fails, "cutproceed")
+				case x == 3 && !in.SM:
+					rd.Fails = append(rd.Fails, "hookfail")
 				default:
 					rd.Fails = append(rd.Fails, "transient")
 				}
 			}
 			rd.Resume = in.SM && r.Intn(2) == 0
+			if !in.WS && r.Intn(10) == 0 {
+				// Stop in the middle of this round's outage
+				if rd.RefuseMs == 0 {
+					rd.RefuseMs = 40 + r.Intn(80)
+				}
+				rd.Fails = nil
+				in.StopOut = j + 1
+			}
 			in.Rounds = append(in.Rounds, rd)
-			if len(rd.Fails) > 0 && c13Permanent(rd.Fails[len(rd.Fails)-1]) {
+			if in.StopOut > 0 || len(rd.Fails) > 0 && c13Permanent(rd.Fails[len(rd.Fails)-1]) {
 				break
 			}
 		}
@@ -215,56 +263,135 @@ func (c13) Gen(r *rand.Rand, tier string) []interface{} {
 	return out
 }
 
-func (c13) Input(inp interface{}) Sx {
-	in := inp.(c13In)
-	var es []Sx
-	att := func(a int) { es = append(es, L(Z(0), Zi(a))) }
-	term := func(t int) { es = append(es, L(Z(1), Zi(t))) }
+// c13Walk goes through a fault sequence the way the scenario is played and tells the visitor what happens, in order.
+// It is the one place that knows the shape of a scenario; the model input, the server scripts and the model-free
+// expectation of the oracle are three visitors.
+type c13Visitor struct {
+	attempt func(kind string, rd *c13Round) // refused | a failure kind | hookfail | good
+	term    func(how string)                // drop close serr serrconflict stop
+	oldRecv func()                          // the receiver that reported a stream error gets the control back
+}
+
+func c13Walk(in c13In, v c13Visitor) {
+	// whatever the sequence, the scenario ends with Stop (visitors see one Stop only when it was called earlier)
+	defer v.term("stop")
 	switch in.First {
 	case "":
-		att(3)
+		v.attempt("good", nil)
 	case "refused":
-		att(0)
-	case "transient":
-		att(1)
-	case "permanent":
-		att(2)
+		v.attempt("refused", nil)
+		return
+	case "stopduring":
+		// the connection is made and the negotiation is going on when Stop comes; Run returns when it has failed
+		v.attempt("transient", nil)
+		return
+	default:
+		v.attempt(in.First, nil)
+		return
 	}
-	if in.First == "" {
-		sessions := 1
-	rounds:
-		for _, rd := range in.Rounds {
-			if in.StopIn > 0 && sessions >= in.StopIn {
-				break
-			}
-			sessions++
-			switch rd.Term {
-			case "drop":
-				term(0)
-			case "serr":
-				term(3)
-			default:
-				term(1)
-			}
-			if rd.RefuseMs > 0 {
-				att(0)
-			}
-			for _, f := range rd.Fails {
-				if c13Permanent(f) {
-					att(2)
-					break rounds
+	sessions := 1
+	for i := range in.Rounds {
+		rd := &in.Rounds[i]
+		if in.StopIn > 0 && sessions >= in.StopIn {
+			break
+		}
+		v.term(rd.Term)
+		if rd.RefuseMs > 0 {
+			v.attempt("refused", rd)
+		}
+		if in.StopOut == i+1 {
+			v.term("stop")
+			v.attempt("good", rd) // the server would accept: nobody must be there to connect
+			return
+		}
+		for _, f := range rd.Fails {
+			v.attempt(f, rd)
+			if c13Permanent(f) {
+				if rd.Term == "serr" {
+					v.oldRecv()
 				}
-				att(1)
-			}
-			if c13Resumes(in, rd) {
-				att(4)
-			} else {
-				att(3)
+				return
 			}
 		}
+		v.attempt("good", rd)
+		if rd.Term == "serr" {
+			v.oldRecv()
+		}
+		sessions++
 	}
-	term(2)
-	return LS(es)
+}
+
+func (c13) Input(inp interface{}) Sx {
+	in := inp.(c13In)
+	if in.Probe != "" {
+		return L(Z(1))
+	}
+	var es []Sx
+	stopped := false
+	c13Walk(in, c13Visitor{
+		attempt: func(kind string, rd *c13Round) {
+			a, fl := 1, false
+			switch {
+			case kind == "refused":
+				a = 0
+			case kind == "good":
+				// the flag is what the SERVER is ready to do when asked to resume; whether the client asks, and so
+				// whether the session is the resumed one, is for the model to say
+				a, fl = 3, rd != nil && rd.Resume
+			case kind == "hookfail":
+				a = 5
+			case c13Permanent(kind):
+				a, fl = 2, c13TLSRefusal(kind) != ""
+			default:
+				fl = c13DropsSession(kind)
+			}
+			es = append(es, L(Z(0), Zi(a), B(fl)))
+			if a == 1 || a == 2 {
+				// NewSession failed on a connection: Client.connect leaves a reader behind, which meets the end of that
+				// connection (a stalled first negotiation that Stop interrupts included)
+				es = append(es, L(Z(2)))
+			}
+		},
+		term: func(how string) {
+			t := map[string]int{"drop": 0, "close": 1, "stop": 2, "serr": 3, "serrconflict": 3}[how]
+			if t == 2 {
+				if stopped {
+					return
+				}
+				stopped = true
+			}
+			es = append(es, L(Z(1), Zi(t)))
+		},
+		oldRecv: func() { es = append(es, L(Z(3))) },
+	})
+	return L(Z(0), B(in.SM), LS(es))
+}
+
+// c13Expect: what the property asks for, counted from the fault sequence alone: negotiations the server sees
+// completed, of which resumed, sessions handed over (= PostConnect calls = sessions that must work), connections made
+func c13Expect(in c13In) (estab, resumed, sessions, conns int64) {
+	stopped := false
+	c13Walk(in, c13Visitor{
+		attempt: func(kind string, rd *c13Round) {
+			if stopped || kind == "refused" {
+				return
+			}
+			conns++
+			switch kind {
+			case "good":
+				estab++
+				sessions++
+				if rd != nil && c13Resumes(in, *rd) {
+					resumed++
+				}
+			case "hookfail":
+				estab++
+			}
+		},
+		term:    func(how string) { stopped = stopped || how == "stop" },
+		oldRecv: func() {},
+	})
+	return
 }
 
 func c13Scripts(in c13In) (scripts []connScript, good map[int]bool, resumed map[int]bool) {
@@ -326,28 +453,26 @@ func c13Scripts(in c13In) (scripts []connScript, good map[int]bool, resumed map[
 		}
 		scripts = append(scripts, s)
 	}
-	switch in.First {
-	case "":
-		add(goodConn(false), true, false)
-	case "transient", "permanent":
-		add(fail(in.First), false, false)
-		return
-	default:
-		return
-	}
-	for _, rd := range in.Rounds {
-		for _, f := range rd.Fails {
-			add(fail(f), false, false)
-			if c13Permanent(f) {
-				return
+	c13Walk(in, c13Visitor{
+		attempt: func(kind string, rd *c13Round) {
+			switch {
+			case kind == "refused":
+			case kind == "good", kind == "hookfail":
+				res := kind == "good" && rd != nil && c13Resumes(in, *rd) && curID != ""
+				add(goodConn(res), true, res)
+			case in.First == "stopduring" && rd == nil:
+				// the negotiation stalls at <auth/> long enough for Stop to arrive in the middle of it, then fails
+				add(connScript{Groups: append(pre(), []sItem{{T: "wait", N: 400}, {T: "message", N: 1}}), IdleDropMs: 1500}, false, false)
+			default:
+				add(fail(kind), false, false)
+				if c13DropsSession(kind) {
+					curID = "" // nothing to resume any more: the client will not even ask
+				}
 			}
-			if c13DropsSession(f) {
-				curID = "" // nothing to resume any more: the client will not even ask
-			}
-		}
-		res := c13Resumes(in, rd) && curID != ""
-		add(goodConn(res), true, res)
-	}
+		},
+		term:    func(string) {},
+		oldRecv: func() {},
+	})
 	return
 }
 
@@ -362,9 +487,10 @@ type c13Server interface {
 	terminate(conn int, how string) // drop close serr
 	probe(conn int, id string)      // a message stanza with this id, sent on the connection
 	shutdown()
-	// sessions negotiated to the end on the connections meant to succeed, how many of them by resumption, and the
-	// connections the server saw beyond those the fault sequence calls for
-	result() (sessions, resumed, extra int)
+	sawMessage(conn int, id string) bool // a message stanza with this id has arrived from the client on the connection
+	// negotiations completed on the connections scripted to succeed, how many of them by resumption, and the
+	// connections the server accepted
+	result() (sessions, resumed, conns int)
 }
 
 // ---- TCP: the scripted server of srv.go ----
@@ -387,6 +513,8 @@ func (t *c13TCP) terminate(conn int, how string) {
 		// RFC 6120 4.9.1.1: the error, the closing tag; the scripted server ends the TCP connection when the client
 		// answers with its own closing tag
 		t.srv.push(conn, c13StreamError+"</stream:stream>")
+	case "serrconflict":
+		t.srv.push(conn, strings.Replace(c13StreamError, "system-shutdown", "conflict", 1)+"</stream:stream>")
 	default:
 		t.srv.push(conn, "</stream:stream>")
 	}
@@ -394,7 +522,19 @@ func (t *c13TCP) terminate(conn int, how string) {
 func (t *c13TCP) probe(conn int, id string) {
 	t.srv.push(conn, fmt.Sprintf("<message id='%s' from='peer@%s'><body>probe</body></message>", id, srvDomain))
 }
-func (t *c13TCP) result() (sessions, resumed, extra int) {
+func (t *c13TCP) sawMessage(conn int, id string) bool {
+	logs := t.srv.snapshot()
+	if conn >= len(logs) {
+		return false
+	}
+	for _, e := range logs[conn].Elems {
+		if e.Kind == "message" && e.A == id {
+			return true
+		}
+	}
+	return false
+}
+func (t *c13TCP) result() (sessions, resumed, conns int) {
 	logs := t.srv.snapshot()
 	for i, lg := range logs {
 		if t.good[i] {
@@ -415,10 +555,7 @@ func (t *c13TCP) result() (sessions, resumed, extra int) {
 			}
 		}
 	}
-	if len(logs) > len(t.scripts) {
-		extra = len(logs) - len(t.scripts)
-	}
-	return
+	return sessions, resumed, len(logs)
 }
 
 // ---- WebSocket: a small RFC 7395 server (SASL PLAIN, resource binding; no stream management) ----
@@ -429,6 +566,7 @@ type c13WS struct {
 	plan     []string // per accepted WebSocket connection: good transient permanent
 	raw      []net.Conn
 	ws       map[int]*websocket.Conn // connection number -> established session
+	msgs     map[int][]string        // connection number -> ids of the message stanzas received on the session
 	accepted int
 	sessions int
 	ctx      context.Context
@@ -451,23 +589,19 @@ func (l c13Listener) Accept() (net.Conn, error) {
 }
 
 func c13WSPlan(in c13In) (plan []string) {
-	switch in.First {
-	case "":
-		plan = append(plan, "good")
-	case "transient", "permanent":
-		return []string{in.First}
-	default:
-		return nil
-	}
-	for _, rd := range in.Rounds {
-		for _, f := range rd.Fails {
-			plan = append(plan, f)
-			if f == "permanent" {
-				return
+	c13Walk(in, c13Visitor{
+		attempt: func(kind string, rd *c13Round) {
+			switch kind {
+			case "refused":
+			case "good", "hookfail":
+				plan = append(plan, "good")
+			default:
+				plan = append(plan, kind)
 			}
-		}
-		plan = append(plan, "good")
-	}
+		},
+		term:    func(string) {},
+		oldRecv: func() {},
+	})
 	return
 }
 
@@ -476,7 +610,7 @@ func startC13WS(plan []string) (*c13WS, error) {
 	if err != nil {
 		return nil, err
 	}
-	s := &c13WS{plan: plan, ws: map[int]*websocket.Conn{}, addr: ln.Addr().String()}
+	s := &c13WS{plan: plan, ws: map[int]*websocket.Conn{}, msgs: map[int][]string{}, addr: ln.Addr().String()}
 	s.ctx, s.cancel = context.WithCancel(context.Background())
 	s.serveOn(ln)
 	return s, nil
@@ -571,8 +705,14 @@ func (s *c13WS) handle(w http.ResponseWriter, r *http.Request) {
 	s.mu.Unlock()
 	send(fmt.Sprintf("<iq xmlns='jabber:client' type='result' id='%s'><bind xmlns='urn:ietf:params:xml:ns:xmpp-bind'><jid>user@%s/r</jid></bind></iq>", id, srvDomain))
 	for {
-		if _, _, err := c.Read(s.ctx); err != nil {
+		_, msg, err := c.Read(s.ctx)
+		if err != nil {
 			return
+		}
+		if n, id := c13XMLName(msg); n == "message" {
+			s.mu.Lock()
+			s.msgs[idx] = append(s.msgs[idx], id)
+			s.mu.Unlock()
 		}
 	}
 }
@@ -639,17 +779,42 @@ func (s *c13WS) shutdown() {
 	s.cancel()
 	c13Cut(s.take(), false)
 }
-func (s *c13WS) result() (sessions, resumed, extra int) {
+func (s *c13WS) sawMessage(conn int, id string) bool {
 	s.mu.Lock()
 	defer s.mu.Unlock()
-	if s.accepted > len(s.plan) {
-		extra = s.accepted - len(s.plan)
+	for _, m := range s.msgs[conn] {
+		if m == id {
+			return true
+		}
 	}
-	return s.sessions, 0, extra
+	return false
+}
+func (s *c13WS) result() (sessions, resumed, conns int) {
+	s.mu.Lock()
+	defer s.mu.Unlock()
+	return s.sessions, 0, s.accepted
+}
+
+// c13HeaderWrite: the transport is given a connection on which nothing can be written any more (the peer has reset
+// it as soon as it was accepted) and asked to open the stream: how is the failure classified?
+func c13HeaderWrite() Sx {
+	a, b := net.Pipe()
+	b.Close()
+	a.Close()
+	t := xmpp.VerifXMPPTransportOnConn(a, 1)
+	_, err := t.StartStream()
+	var ce xmpp.ConnError
+	if err == nil || !errors.As(err, &ce) {
+		return L(SBytes("header-write-did-not-fail-with-a-ConnError"))
+	}
+	return L(Z(9), B(ce.Permanent))
 }
 
 func (c13) Run(inp interface{}) Sx {
 	in := inp.(c13In)
+	if in.Probe != "" {
+		return c13HeaderWrite()
+	}
 	var srv c13Server
 	if in.WS {
 		w, err := startC13WS(c13WSPlan(in))
@@ -700,6 +865,26 @@ func (c13) Run(inp interface{}) Sx {
 	if err != nil {
 		return L(SBytes("newclient-failed"))
 	}
+	// the application's hook after a reconnection: fails on the attempts the fault sequence says
+	var hookPlan []bool
+	c13Walk(in, c13Visitor{
+		attempt: func(kind string, rd *c13Round) {
+			if rd != nil && (kind == "good" || kind == "hookfail") {
+				hookPlan = append(hookPlan, kind == "hookfail")
+			}
+		},
+		term: func(string) {}, oldRecv: func() {},
+	})
+	hooks := 0
+	client.PostResumeHook = func() error {
+		mu.Lock()
+		defer mu.Unlock()
+		hooks++
+		if hooks <= len(hookPlan) && hookPlan[hooks-1] {
+			return errors.New("the application could not restore its state")
+		}
+		return nil
+	}
 	var sm *xmpp.StreamManager
 	sm = xmpp.NewStreamManager(client, func(s xmpp.Sender) {
 		mu.Lock()
@@ -733,28 +918,46 @@ func (c13) Run(inp interface{}) Sx {
 		return false
 	}
 	probeOK := 0
+	// a session works when a stanza the server sends on its connection reaches a handler AND a stanza the
+	// application sends afterwards arrives at the server on that same connection
 	probe := func(connIdx, k int) {
 		id := fmt.Sprintf("probe-%d", k)
 		srv.probe(connIdx, id)
 		deadline := time.Now().Add(2 * time.Second)
-		for time.Now().Before(deadline) {
+		got := false
+		for time.Now().Before(deadline) && !got {
 			mu.Lock()
-			n := probes[id]
+			got = probes[id] > 0
 			mu.Unlock()
-			if n > 0 {
+			if !got {
+				time.Sleep(300 * time.Microsecond)
+			}
+		}
+		if !got {
+			return
+		}
+		up := fmt.Sprintf("up-%d", k)
+		if client.Send(stanza.Message{Attrs: stanza.Attrs{Id: up, To: "peer@" + srvDomain, Type: stanza.MessageTypeChat}, Body: "up"}) != nil {
+			return
+		}
+		for time.Now().Before(deadline) {
+			if srv.sawMessage(connIdx, up) {
 				probeOK++
 				return
 			}
 			time.Sleep(300 * time.Microsecond)
 		}
 	}
-	stoppedIn := false
+	stoppedIn := false  // Stop has been called from a PostConnect callback
+	stoppedOut := false // Stop has been called by the scenario itself (during an outage, during the first connection)
+	stopDone := make(chan struct{})
 	connIdx := 0 // index of the server connection carrying the current session
 	sessions := 0
 	dead := false
-	var refusedAt []int // connections on which the fault sequence has the TLS handshake refused
+	refusedAt := map[int]string{} // connections on which the fault sequence has the TLS handshake refused, and how
 	settle := time.Duration(0)
-	if in.First == "" {
+	switch in.First {
+	case "":
 		if waitPost(1, 5*time.Second) {
 			sessions = 1
 			if in.StopIn == 1 {
@@ -765,7 +968,7 @@ func (c13) Run(inp interface{}) Sx {
 			}
 		}
 	rounds:
-		for _, rd := range in.Rounds {
+		for i, rd := range in.Rounds {
 			if sessions == 0 || stoppedIn {
 				break
 			}
@@ -777,6 +980,20 @@ func (c13) Run(inp interface{}) Sx {
 				// the receiver that reported the stream error is still there when the manager has reconnected
 				// from inside its handler: give it the time to show what it does next
 				settle = 300 * time.Millisecond
+			}
+			if in.StopOut == i+1 {
+				// Stop in the middle of the outage: the retry loop is running (refused dials, back-off)
+				time.Sleep(time.Duration(rd.RefuseMs/2) * time.Millisecond)
+				stoppedOut = true
+				go func() { sm.Stop(); close(stopDone) }()
+				time.Sleep(time.Duration(rd.RefuseMs-rd.RefuseMs/2) * time.Millisecond)
+				if srv.listenerUp() != nil {
+					return L(SBytes("relisten-failed"))
+				}
+				// the server accepts connections again: a retry loop that Stop has not ended comes back within its
+				// back-off (below 20 ms * 2^attempts, i.e. some hundred ms after an outage of this length)
+				settle = 1200 * time.Millisecond
+				break
 			}
 			if rd.RefuseMs > 0 {
 				time.Sleep(time.Duration(rd.RefuseMs) * time.Millisecond)
@@ -795,9 +1012,18 @@ func (c13) Run(inp interface{}) Sx {
 					// the connection of a refused handshake is gone when the client closes its stream: Transport.Close
 					// sits out ConnectTimeout (1 s) before a retry loop that has NOT ended makes its next attempt
 					settle = 1600 * time.Millisecond
-					refusedAt = append(refusedAt, connIdx)
+					refusedAt[connIdx] = f
 				}
 				if c13Permanent(f) {
+					// the attempt that fails for good has to be made first (after a stream error the manager sits out
+					// ConnectTimeout in Disconnect before it reconnects, after <conflict/> twice)
+					deadline := time.Now().Add(12 * time.Second)
+					for time.Now().Before(deadline) {
+						if _, _, c := srv.result(); c > connIdx {
+							break
+						}
+						time.Sleep(time.Millisecond)
+					}
 					dead = true
 					break rounds
 				}
@@ -814,7 +1040,19 @@ func (c13) Run(inp interface{}) Sx {
 			}
 			probe(connIdx, sessions)
 		}
-	} else {
+	case "stopduring":
+		// wait until the negotiation is under way (the server has the client's <auth/> and sits on its answer), then Stop
+		deadline := time.Now().Add(3 * time.Second)
+		for time.Now().Before(deadline) {
+			if _, _, c := srv.result(); c > 0 {
+				break
+			}
+			time.Sleep(time.Millisecond)
+		}
+		time.Sleep(60 * time.Millisecond)
+		stoppedOut = true
+		go func() { sm.Stop(); close(stopDone) }()
+	default:
 		select {
 		case <-runDone:
 			returned = true
@@ -826,12 +1064,18 @@ func (c13) Run(inp interface{}) Sx {
 		settle = 400 * time.Millisecond
 	}
 	time.Sleep(settle)
-	if stoppedIn && !returned {
-		// Stop has been called from a PostConnect callback: Run must return on its own
+	if (stoppedIn || stoppedOut) && !returned {
+		// Stop has been called (from a PostConnect callback, or by the scenario): Run must return on its own
 		select {
 		case <-runDone:
 			returned = true
 		case <-time.After(5 * time.Second):
+		}
+		if stoppedOut {
+			select {
+			case <-stopDone:
+			case <-time.After(3 * time.Second):
+			}
 		}
 	} else if !returned {
 		stopped := make(chan struct{})
@@ -847,13 +1091,20 @@ func (c13) Run(inp interface{}) Sx {
 		}
 	}
 	time.Sleep(5 * time.Millisecond)
-	srvSessions, srvResumed, extra := srv.result()
+	srvSessions, srvResumed, conns := srv.result()
 	if t, ok := srv.(*c13TCP); ok && dead {
-		// the scenario is only what it claims to be if the handshake really failed on that connection
+		// The scenario is only what it claims to be if the handshake was really REFUSED on that connection, in the
+		// way scripted: the server's side of the handshake reports its own refusal or the client's alert. Anything
+		// else (a deadline, a connection that went away under the handshake, a garbled record) is not a policy
+		// failure, the client is right to retry it, and the scenario is played again.
 		logs := t.srv.snapshot()
-		for _, i := range refusedAt {
-			if i >= len(logs) || logs[i].TLS != "handshake-error" {
-				return L(SBytes("tls-refusal-not-realised"), Zi(i))
+		for i, kind := range refusedAt {
+			if i >= len(logs) || logs[i].TLS != "handshake-error" || !c13RefusalLogged(kind, logs[i].TLSErr) {
+				why := "no handshake"
+				if i < len(logs) {
+					why = logs[i].TLS + ": " + logs[i].TLSErr
+				}
+				return L(SBytes("tls-refusal-not-realised"), Zi(i), SBytes(kind), SBytes(why))
 			}
 		}
 	}
@@ -872,52 +1123,47 @@ func (c13) Run(inp interface{}) Sx {
 		}
 	}
 	mu.Unlock()
-	if extra > 0 || dup > 0 {
-		return L(Zi(phase), Zi(srvSessions), Zi(srvResumed), Zi(p), Zi(probeOK), L(SBytes("extra-connections"), Zi(extra), Zi(dup)))
+	if dup > 0 {
+		return L(Zi(phase), Zi(srvSessions), Zi(srvResumed), Zi(p), Zi(probeOK), Zi(conns), L(SBytes("probe-delivered-twice"), Zi(dup)))
 	}
-	return L(Zi(phase), Zi(srvSessions), Zi(srvResumed), Zi(p), Zi(probeOK))
+	return L(Zi(phase), Zi(srvSessions), Zi(srvResumed), Zi(p), Zi(probeOK), Zi(conns))
 }
 
 func (c13) Oracle(inp interface{}, obs Sx) (string, string) {
 	in := inp.(c13In)
-	if len(obs.L) < 5 {
+	if in.Probe != "" {
+		if len(obs.L) != 2 || obs.L[0].Z != 9 {
+			return "probe did not run: " + obs.String(), "hang"
+		}
+		if obs.L[1].Z != 0 {
+			return "a stream header that cannot be written (the connection was reset as soon as it was accepted) is classified as a PERMANENT error: the retry loop ends on an abrupt drop", "header-write-failure-permanent"
+		}
+		return "", ""
+	}
+	if len(obs.L) < 6 {
 		return "scenario did not finish: " + obs.String(), "hang"
 	}
-	phase, sessions, resumed, post, recv := obs.L[0].Z, obs.L[1].Z, obs.L[2].Z, obs.L[3].Z, obs.L[4].Z
-	if len(obs.L) > 5 {
-		return "more connections or probe deliveries than sessions: " + obs.L[5].String(), "extra-session"
+	phase, sessions, resumed, post, works, conns := obs.L[0].Z, obs.L[1].Z, obs.L[2].Z, obs.L[3].Z, obs.L[4].Z, obs.L[5].Z
+	if len(obs.L) > 6 {
+		return "a probe stanza was delivered more than once: " + obs.L[6].String(), "probe-delivered-twice"
 	}
 	if phase != 4 {
 		return "Run did not return after Stop (or after the first connection failed)", "run-not-returned"
 	}
-	// expected number of sessions: 1 + rounds completed before a permanent failure
-	want, wantRes := int64(0), int64(0)
-	if in.First == "" {
-		want = 1
-		for _, rd := range in.Rounds {
-			if in.StopIn > 0 && want >= int64(in.StopIn) {
-				break
-			}
-			perm := false
-			for _, f := range rd.Fails {
-				if c13Permanent(f) {
-					perm = true
-				}
-			}
-			if perm {
-				break
-			}
-			want++
-			if c13Resumes(in, rd) {
-				wantRes++
-			}
-		}
+	wantEstab, wantRes, want, wantConns := c13Expect(in)
+	stopEarly := in.StopOut > 0 || in.First == "stopduring"
+	if stopEarly && (post > want || sessions > wantEstab || conns > wantConns) {
+		return fmt.Sprintf("after Stop (called while the manager was reconnecting) and Run's return: %d connections (%d before Stop), %d sessions negotiated (%d), PostConnect ran %d times (%d)",
+			conns, wantConns, sessions, wantEstab, post, want), "session-after-stop"
 	}
-	if sessions != want {
-		sig := fmt.Sprintf("sessions-%s", cmpWord(sessions, want))
-		if sessions >= 1 && sessions < want && int(sessions) <= len(in.Rounds) {
+	if conns > wantConns {
+		return fmt.Sprintf("the server accepted %d connections, the fault sequence accounts for %d", conns, wantConns), "extra-session"
+	}
+	if sessions != wantEstab {
+		sig := fmt.Sprintf("sessions-%s", cmpWord(sessions, wantEstab))
+		if post >= 1 && post < want && int(post) <= len(in.Rounds) {
 			// the round after which no new session came: what the manager met while reconnecting
-			rd := in.Rounds[sessions-1]
+			rd := in.Rounds[post-1]
 			for _, f := range rd.Fails {
 				if c13DropsSession(f) {
 					sig = "gave-up-after-cut-negotiation"
@@ -927,16 +1173,19 @@ func (c13) Oracle(inp interface{}, obs Sx) (string, string) {
 				sig = "gave-up-after-refused-websocket-dial"
 			}
 		}
-		return fmt.Sprintf("%d sessions established on the server, fault sequence calls for %d", sessions, want), sig
+		return fmt.Sprintf("%d sessions established on the server, fault sequence calls for %d", sessions, wantEstab), sig
 	}
 	if post != want {
 		return fmt.Sprintf("PostConnect ran %d times for %d sessions", post, want), "post-connect-count"
 	}
-	if recv != want {
-		return fmt.Sprintf("a probe stanza reached a handler on %d of %d sessions", recv, want), "session-not-receiving"
+	if works != want {
+		return fmt.Sprintf("%d of %d sessions work in both directions (a stanza from the server reaches a handler, a stanza sent afterwards arrives on the session's connection)", works, want), "session-not-working"
 	}
 	if resumed != wantRes {
 		return fmt.Sprintf("%d sessions resumed, expected %d", resumed, wantRes), "resumed-count"
+	}
+	if conns != wantConns {
+		return fmt.Sprintf("the server accepted %d connections, the fault sequence accounts for %d", conns, wantConns), "connections-missing"
 	}
 	return "", ""
 }
@@ -951,7 +1200,10 @@ func cmpWord(a, b int64) string {
 func (c13) Key(inp interface{}) (string, bool) {
 	in := inp.(c13In)
 	var b strings.Builder
-	fmt.Fprintf(&b, "sm%v tls%v ws%v first=%s|", in.SM, in.TLS, in.WS, in.First)
+	fmt.Fprintf(&b, "sm%v tls%v ws%v first=%s stopout%d probe=%s|", in.SM, in.TLS, in.WS, in.First, in.StopOut, in.Probe)
+	if in.StopOut > 0 {
+		hist("stop-during-outage")
+	}
 	if in.TLS {
 		hist("tls-mandatory")
 	}
